@@ -158,16 +158,64 @@ def make_config(seed: int, i: int, force: dict | None = None) -> dict:
         if not any(A):
             A[r.randrange(J)] = 1
         rows.append({'V': V, 'A': A})
-    av_mode = force.get('av_mode') or r.choice(['var', 'var', 'var', 'mixed', 'none'])
+    av_mode = force.get('av_mode') or r.choice(['var', 'var', 'var', 'mixed', 'mixed', 'none'])
+    # how the availability dictionary shares expression OBJECTS between alternatives:
+    #   fresh      one new expression per alternative
+    #   group_var  ONE Variable object reused by several alternatives (of the same nest, and across nests)
+    #   group_expr ONE compound expression object reused the same way
+    #   one_object ONE Numeric(1) object (or plain int / bool) for all the always-available alternatives
+    av_share = force.get('av_share') or r.choice(['fresh', 'fresh', 'group_var', 'group_var', 'group_expr', 'one_object'])
+    if av_mode == 'none':
+        av_share = 'fresh'
+    if av_share == 'one_object' and av_mode == 'var':
+        av_mode = 'mixed'
+    av_groups = []
+    if av_share in ('group_var', 'group_expr'):
+        used = set()
+        for n in nl:
+            if len(n['alts']) >= 2 and r.random() < 0.85:
+                grp = r.sample(n['alts'], r.randint(2, len(n['alts'])))
+                if r.random() < 0.4:
+                    others = [a for a in alts if a not in n['alts'] and a not in used]
+                    if others:
+                        grp.append(r.choice(others))  # the same object also serves another nest / an alone alternative
+                grp = [a for a in grp if a not in used]
+                if len(grp) >= 2:
+                    av_groups.append(grp)
+                    used |= set(grp)
+        if not av_groups:
+            av_groups = [r.sample(alts, 2)]
+    grouped = {a for grp in av_groups for a in grp}
     if av_mode == 'none':
         for row in rows:
             row['A'] = [1] * J
     always = []
     if av_mode == 'mixed':
         # some alternatives declared always available with a plain 1
-        always = [a for a in alts if r.random() < 0.4]
+        always = [a for a in alts if a not in grouped and r.random() < 0.4]
+        if av_share == 'one_object':
+            # make sure the shared object serves two members of one nest when the structure allows it
+            big = [n['alts'] for n in nl if len(n['alts']) >= 2]
+            if big and r.random() < 0.8:
+                always = sorted(set(always) | set(r.sample(r.choice(big), 2)), key=alts.index)
         for row in rows:
             row['A'] = [1 if a in always else x for a, x in zip(alts, row['A'])]
+    for row in rows:
+        for grp in av_groups:
+            x = row['A'][alts.index(grp[0])]
+            for a in grp:
+                row['A'][alts.index(a)] = x
+        if not any(row['A']):
+            a = r.choice(alts)
+            for b_ in next((grp for grp in av_groups if a in grp), [a]):
+                row['A'][alts.index(b_)] = 1
+    one_kind = force.get('one_kind') or r.choice(['numeric', 'numeric', 'int', 'bool'])
+    # utilities: sub-expression objects (the constant column, the generic coefficient, a common compound term)
+    # either rebuilt for every alternative or ONE object reused by all of them
+    util_share = force.get('util_share') or r.choice(['fresh', 'shared', 'shared'])
+    common = None
+    if r.random() < 0.5:
+        common = {'bs': round(r.uniform(-1, 1), 3), 'xs': [round(r.uniform(-1, 1), 3) for _ in range(nrows)]}
 
     util_form = force.get('util_form') or r.choice(['var', 'var', 'lin', 'lin', 'const1'])
     lin = None
@@ -208,6 +256,11 @@ def make_config(seed: int, i: int, force: dict | None = None) -> dict:
         'rows': rows,
         'av_mode': av_mode,
         'always': always,
+        'av_share': av_share,
+        'av_groups': av_groups,
+        'one_kind': one_kind,
+        'util_share': util_share,
+        'common': common,
         'util_form': util_form,
         'lin': lin,
         'const_alt': const_alt,
@@ -264,7 +317,38 @@ def features(cfg: dict) -> dict:
         'rows_whole_nest_unavailable': whole,
         'rows_with_unavailable': sum(1 for row in cfg['rows'] if not all(row['A'])),
         'rows_single_available': sum(1 for row in cfg['rows'] if sum(row['A']) == 1),
+        'same_nest_members_share_availability_object': len(shared_availability_in_nest(cfg)),
+        'availability_object_shared_across_nests': sum(
+            1 for grp in shared_availability_sets(cfg) if len({_nest_of(cfg, a) for a in grp}) > 1),
     }
+
+
+def _nest_of(cfg, a):
+    for k, n in enumerate(cfg['nl']):
+        if a in n['alts']:
+            return k
+    return f'alone{a}'
+
+
+def shared_availability_sets(cfg: dict) -> list:
+    """sets of alternatives whose availability is ONE expression object"""
+    if cfg['av_mode'] == 'none':
+        return []
+    out = [list(grp) for grp in cfg.get('av_groups', [])]
+    if cfg.get('av_share') == 'one_object' and cfg.get('one_kind') == 'numeric' and len(cfg['always']) >= 2:
+        out.append(list(cfg['always']))
+    return out
+
+
+def shared_availability_in_nest(cfg: dict) -> list:
+    """pairs (nest index, alternatives) where >= 2 members of a nest with parameter != 1 share the object"""
+    out = []
+    for grp in shared_availability_sets(cfg):
+        for k, n in enumerate(cfg['nl']):
+            inter = [a for a in grp if a in n['alts']]
+            if len(inter) >= 2 and n['param'] != 1.0:
+                out.append([k, inter])
+    return out
 
 
 # ----------------------------------------------------------------------------
@@ -293,6 +377,9 @@ def table(cfg: dict, with_shifts=True, replicate_choice=None):
                     else:
                         d[f'V{a}'] = float(v)
                     d[f'A{a}'] = float(row['A'][j])
+                for gi, grp in enumerate(cfg.get('av_groups', [])):
+                    d[f'AG{gi}'] = float(row['A'][alts.index(grp[0])])
+                d['XS'] = float(cfg['common']['xs'][ri]) if cfg.get('common') else 0.0
                 d['CH'] = float(ch if ch is not None else alts[0])
                 recs.append(d)
     return pd.DataFrame(recs)
@@ -342,18 +429,40 @@ class Builder:
         return ex.Beta(name, float(value), 1.0, None, 0)
 
     def util(self, shifted=True, plain_variables=False):
-        """dict label -> utility. shifted: '+ C' (a data column holding the constant)."""
+        """dict label -> utility. shifted: '+ C' (a data column holding the constant).
+
+        util_share == 'shared': the constant column, the generic coefficient and the common compound
+        term are each ONE object reused in every alternative's utility; 'fresh': rebuilt per alternative."""
         import biogeme.expressions as ex
 
         cfg = self.cfg
+        shared = cfg.get('util_share', 'fresh') == 'shared'
+        common = cfg.get('common')
+        memo = {}
+
+        def once(key, make):
+            if not shared:
+                return make()
+            if key not in memo:
+                memo[key] = make()
+            return memo[key]
+
+        def common_term():
+            if self.row is not None:
+                return ex.Numeric(common['bs'] * common['xs'][self.row])
+            self.free['B_S'] = common['bs']
+            return ex.Beta('B_S', common['bs'], None, None, 0) * ex.Variable('XS')
+
         out = {}
         for j, a in enumerate(self.alts):
             if self.row is not None:
                 v = ex.Numeric(float(cfg['rows'][self.row]['V'][j]))
                 if cfg['const_alt'] == a:
                     v = float(cfg['rows'][self.row]['V'][j])
+                if common:
+                    v = v + once('common', common_term)
                 if shifted and self.shift_value is not None:
-                    v = v + ex.Numeric(self.shift_value)
+                    v = v + once('C', lambda: ex.Numeric(self.shift_value))
                 out[a] = v
                 continue
             if cfg['const_alt'] == a and not plain_variables:
@@ -364,27 +473,52 @@ class Builder:
                 self.free['B_X'] = cfg['lin']['b']
                 asc = cfg['lin']['asc'][str(a)]
                 self.free[f'ASC_{a}'] = asc
-                v = ex.Beta(f'ASC_{a}', asc, None, None, 0) + ex.Beta('B_X', cfg['lin']['b'], None, None, 0) * ex.Variable(f'X{a}')
+                bx = once('B_X', lambda: ex.Beta('B_X', cfg['lin']['b'], None, None, 0))
+                v = ex.Beta(f'ASC_{a}', asc, None, None, 0) + bx * ex.Variable(f'X{a}')
             else:
                 v = ex.Variable(f'V{a}')
+            if common:
+                v = v + once('common', common_term)
             if shifted:
-                v = v + ex.Variable('C')
+                v = v + once('C', lambda: ex.Variable('C'))
             out[a] = v
         return out
 
     def av(self):
+        """availability dictionary in the object-sharing style of the configuration (see make_config)"""
         import biogeme.expressions as ex
 
         cfg = self.cfg
         if cfg['av_mode'] == 'none':
             return None
+        share = cfg.get('av_share', 'fresh')
+        group_of = {a: gi for gi, grp in enumerate(cfg.get('av_groups', [])) for a in grp}
+        memo = {}
         out = {}
         for j, a in enumerate(self.alts):
-            if self.row is not None:
-                x = cfg['rows'][self.row]['A'][j]
+            x = None if self.row is None else cfg['rows'][self.row]['A'][j]
+            if a in group_of:
+                gi = group_of[a]
+                if gi not in memo:
+                    if x is not None:
+                        memo[gi] = ex.Numeric(x)
+                    elif share == 'group_expr':
+                        memo[gi] = (ex.Variable(f'AG{gi}') != 0) if gi % 2 else ex.Variable(f'AG{gi}') * ex.Numeric(1)
+                    else:
+                        memo[gi] = ex.Variable(f'AG{gi}')
+                out[a] = memo[gi]  # the SAME object for every member of the group
+            elif a in cfg['always'] and share == 'one_object':
+                kind = cfg.get('one_kind', 'numeric')
+                if kind == 'numeric':
+                    if 'one' not in memo:
+                        memo['one'] = ex.Numeric(1)
+                    out[a] = memo['one']
+                else:
+                    out[a] = 1 if kind == 'int' else True
+            elif x is not None:
                 out[a] = ex.Numeric(x) if j % 2 else int(x)
             elif a in cfg['always']:
-                out[a] = 1 if j % 2 else ex.Numeric(1)
+                out[a] = [ex.Numeric(1), 1, True][j % 3]
             else:
                 out[a] = ex.Variable(f'A{a}')
         return out
